@@ -581,6 +581,19 @@ int yr_arena_load_stream(YR_STREAM* stream, YR_ARENA** arena)
   if (read != hdr.num_buffers)
     return ERROR_CORRUPT_FILE;
 
+  // The offsets in the buffer table are redundant: each buffer starts where
+  // the previous one ends. Use them to cross-check the table.
+  uint64_t expected_offset = sizeof(YR_ARENA_FILE_HEADER) +
+                             sizeof(YR_ARENA_FILE_BUFFER) * hdr.num_buffers;
+
+  for (int i = 0; i < hdr.num_buffers; ++i)
+  {
+    if (buffers[i].offset != expected_offset)
+      return ERROR_CORRUPT_FILE;
+
+    expected_offset += buffers[i].size;
+  }
+
   YR_ARENA* new_arena;
 
   FAIL_ON_ERROR(yr_arena_create(hdr.num_buffers, 10485, &new_arena))
@@ -606,14 +619,23 @@ int yr_arena_load_stream(YR_STREAM* stream, YR_ARENA** arena)
   }
 
   YR_ARENA_REF reloc_ref;
+  size_t reloc_bytes;
 
-  while (yr_stream_read(&reloc_ref, sizeof(reloc_ref), 1, stream) == 1)
+  // Relocation entries follow until the end of the stream. Read them as bytes
+  // so that a truncated entry is told apart from the end of the stream.
+  while ((reloc_bytes = yr_stream_read(
+              &reloc_ref, 1, sizeof(reloc_ref), stream)) == sizeof(reloc_ref))
   {
+    if (reloc_ref.buffer_id >= new_arena->num_buffers)
+    {
+      yr_arena_release(new_arena);
+      return ERROR_CORRUPT_FILE;
+    }
+
     YR_ARENA_BUFFER* b = &new_arena->buffers[reloc_ref.buffer_id];
 
-    if (reloc_ref.buffer_id >= new_arena->num_buffers ||
-        reloc_ref.offset > b->used - sizeof(void*) ||
-        b->data == NULL)
+    if (b->data == NULL || b->used < sizeof(void*) ||
+        reloc_ref.offset > b->used - sizeof(void*))
     {
       yr_arena_release(new_arena);
       return ERROR_CORRUPT_FILE;
@@ -623,6 +645,15 @@ int yr_arena_load_stream(YR_STREAM* stream, YR_ARENA** arena)
 
     memcpy(&ref, b->data + reloc_ref.offset, sizeof(ref));
 
+    // The reference must be null or point into the used part of a buffer.
+    if (!YR_ARENA_IS_NULL_REF(ref) &&
+        (ref.buffer_id >= new_arena->num_buffers ||
+         ref.offset >= new_arena->buffers[ref.buffer_id].used))
+    {
+      yr_arena_release(new_arena);
+      return ERROR_CORRUPT_FILE;
+    }
+
     void* reloc_ptr = yr_arena_ref_to_ptr(new_arena, &ref);
 
     memcpy(b->data + reloc_ref.offset, &reloc_ptr, sizeof(reloc_ptr));
@@ -631,6 +662,13 @@ int yr_arena_load_stream(YR_STREAM* stream, YR_ARENA** arena)
         yr_arena_make_ptr_relocatable(
             new_arena, reloc_ref.buffer_id, reloc_ref.offset, EOL),
         yr_arena_release(new_arena))
+  }
+
+  if (reloc_bytes != 0)
+  {
+    // The stream ended in the middle of a relocation entry.
+    yr_arena_release(new_arena);
+    return ERROR_CORRUPT_FILE;
   }
 
   *arena = new_arena;
